@@ -375,3 +375,70 @@ def scenarios(U):
 
 scenarios.enumerate_inputs = lambda tier, **p: iter([{}])
 scenarios.conc_timeout = 600
+
+
+# ------------------------------------------------------------------------------------------------
+# Bounded: the programs with which an independent defect hunt (DESIGN §9, session 3) showed wrong decompilations of the
+# unchanged tree -- moves of throwing expressions, cmp-long used as a value, do-while latches that leave on the taken branch, nop,
+# switch fall-through layouts, loops nested in do-while bodies, register reuse with another type, three-level loop nests,
+# conditional continue, switches in a row inside a case, default bodies starting with a condition or a loop.  int and long
+# parameters; each program runs on the argument tuples recorded with it (specs/c21_hunt_scenarios.json).
+_HUNT_KNOWN = {5: "KF-C21-6", 7: "KF-C21-7", 9: "KF-C21-8"}
+
+
+def _hunt_programs():
+    import json
+    import os
+    return json.load(open(os.path.join(os.path.dirname(os.path.dirname(os.path.abspath(__file__))), "specs", "c21_hunt_scenarios.json")))
+
+
+@unit("C21", covers=E2E_COVERS, level="bounded", samples=1, timeout_ms=900000,
+      note="25 hand-written programs from the defect hunt (int and long parameters, switches, nested loops, nop), each on its recorded "
+           "argument tuples: independent DEX writer -> real DecompilerDAD -> javac -> java vs the reference interpreter")
+def hunted_programs(U):
+    for f in E2E_FILES:
+        U.mod(f)
+    dexm = U.mod("androguard/core/dex/__init__.py")
+    anam = U.mod("androguard/core/analysis/analysis.py")
+    decm = U.mod("androguard/decompiler/decompiler.py")
+    sources, calls, expected, kf = {}, {}, {}, {}
+    for p in _hunt_programs():
+        code = [tuple(i) for i in p["code"]]
+        cname = "H_" + p["name"]
+        kf[cname] = [U.known(_HUNT_KNOWN[p["defect"]], True)] if p["defect"] in _HUNT_KNOWN else []
+        params, r = [], p["nlocals"]
+        for t in p["ptypes"]:
+            params.append(r)
+            r += 2 if t == "J" else 1
+        insns = bytes.fromhex(p["insns"]) if p["insns"] else G.assemble(code)
+        cd = dict(registers=r, ins=r - p["nlocals"], outs=0, insns=insns)
+        cls = dict(name="Lp/%s;" % cname, access=1, super="Ljava/lang/Object;", interfaces=[], source=cname + ".java", sfields=[], ifields=[],
+                   dmethods=[("m0", p["ret"], list(p["ptypes"]), 0x9, cd)], vmethods=[])
+        o = U.call(lambda: decm.DecompilerDAD(*(lambda dx: (dx, (lambda an: (an.create_xref(), an)[1])(anam.Analysis(dx))))(dexm.DEX(DW.write([cls])))))
+        U.ensures("the decompiler does not raise", o.ok, program=cname, exc=repr(o.exc)[:200], unless=kf[cname])
+        if not o.ok:
+            continue
+        dad = o.value
+        src = dad.get_source_class(dad.vm.get_classes()[0])
+        U.ensures("the method is decompiled (a body is emitted)", " m0(" in src, program=cname, source=src[:400], unless=kf[cname])
+        if " m0(" not in src:
+            continue
+        sources[cname], calls[cname] = src, []
+        for n, a in enumerate(p["args"]):
+            ref = G.interpret(code, dict(zip(params, a)))
+            if ref[0] == "timeout":
+                continue
+            key = "%s#%d" % (cname, n)
+            calls[cname].append((key, "m0", [("%dL" % v) if t == "J" else str(v) for v, t in zip(a, p["ptypes"])], False))
+            expected[key] = (cname, list(a), "exc" if ref[0] == "exc" else str(ref[1]))
+    errors, results, log = JH.compile_and_run(sources, calls)
+    for cname in sorted(sources):
+        U.ensures("the decompiled source is accepted by javac", cname not in errors, program=cname, errors=errors.get(cname, [])[:3],
+                  source=sources[cname][:1200], unless=kf[cname])
+        wrong = [(a, want, results.get(k)) for k, (c, a, want) in sorted(expected.items()) if c == cname and cname not in errors and results.get(k) != want]
+        U.ensures("the compiled decompiler output returns the value (or throws the ArithmeticException) the bytecode does",
+                  not wrong, program=cname, wrong=wrong[:4], source=sources[cname][:1200], unless=kf[cname])
+
+
+hunted_programs.enumerate_inputs = lambda tier, **p: iter([{}])
+hunted_programs.conc_timeout = 600
